@@ -698,6 +698,7 @@ func run(t *rapid.T, rec *ev.Recorder, engineMode bool) {
 		roundsA   int
 		roundsB   int
 		finished  bool
+		knownHit  bool
 		labels    []string
 		maxVolume int
 	)
@@ -712,6 +713,9 @@ func run(t *rapid.T, rec *ev.Recorder, engineMode bool) {
 		}
 		if w.raced {
 			labels = append(labels, "gc-inside-flush-window")
+		}
+		if knownHit {
+			labels = append(labels, "known:"+fpFlushRace)
 		}
 		if nontrivial {
 			labels = append(labels, "garbage>batch")
@@ -798,6 +802,11 @@ func run(t *rapid.T, rec *ev.Recorder, engineMode bool) {
 				if !strings.Contains(b, "blob still stored") {
 					onlyBlobs = false
 				}
+			}
+			if onlyBlobs && w.rec.Known(fpFlushRace) {
+				// known open finding: count it and stop judging this history
+				knownHit = true
+				return
 			}
 			if onlyBlobs {
 				w.fail("orphan blobs after a GC pass ran inside the write-cache flush window [%s]:\n  %s", fpFlushRace, strings.Join(bad, "\n  "))
